@@ -62,9 +62,13 @@ D7 = {"Node": obj({"next": {"$ref": "#/definitions/Node"}, "v": INT}, ["v"]), "O
 # an UNNAMED type (Vec<String>): what a repeated addition returns is decided by the structural lookup table alone
 OPS.update({"T10": {"type": {"type": "array", "items": STR}, "hint": None},
             "T11": {"type": obj({"names": {"type": "array", "items": STR}, "n": {"type": ["integer", "null"]}}), "hint": "Holder11"}})
+# ONE untitled schema (with an in-line named member) added under two different name hints: the hint is part of what is added
+S12 = obj({"kind": {"type": "string", "enum": ["m", "n"]}, "w": INT}, ["kind"])
+OPS.update({"T12": {"type": S12, "hint": "Alpha"}, "T13": {"type": S12, "hint": "Beta"}})
+HINT_NAMES = {"T12": "Alpha", "T13": "Beta"}
 OPS.update({"R7": {"refs": D7}, "R7n": {"refs": {"Node": D7["Node"]}}, "R7o": {"refs": {"Other": D7["Other"]}},
             "T9": {"type": obj({"n": {"$ref": "#/definitions/Node"}, "w": STR}), "hint": "Other"}})
-SUB6 = ["R1", "R3", "T1", "T3", "T4", "T5", "T10", "T11"]
+SUB6 = ["R1", "R3", "T1", "T3", "T4", "T5", "T10", "T11", "T12", "T13"]
 SUB_ORDER = ["R6", "R6r", "R6z", "R6a", "R2", "T1", "R7", "R7n", "R7o", "T9"]
 SUB_ROOTS = ["ROOT3", "T6", "ROOT2", "T1", "R2", "T7", "T8"]
 DEFINES = {"R7": {"Node", "Other"}, "R7n": {"Node"}, "R7o": {"Other"}, "R14": set(D1) | set(D4), "R6": set(D6), "R6r": set(D6), "R6z": {"Zest"}, "R6a": {"Apple"}, "R5": set(D5), "R1": set(D1), "R2": set(D2), "R3": set(D3), "R4": set(D4), "R12": set(D12), "ROOT1": set(D1) | {"Root1"}, "ROOT2": set(D2) | {"Root2"},
@@ -73,12 +77,13 @@ ROOT_TITLE = {"ROOT1": "Root1", "ROOT2": "Root2", "ROOT3": "Root3"}
 NEEDS_D1 = {"T4", "R5"}
 PROVIDES_D1 = {"R1", "R12", "ROOT1", "R14"}
 # pairs declared independent by the alphabet: disjoint definition names, no cross references, no coinciding inline names
-INDEPENDENT = {frozenset(p) for p in [("R1", "R2"), ("R1", "R3"), ("R2", "R3"), ("R3", "R4"), ("R2", "R4"), ("R3", "R12"),
+INDEPENDENT = {frozenset(p) for p in [("T12", "T13"), ("T12", "R3"), ("T13", "R3"), ("T12", "T10"), ("T12", "T1"),
+                                      ("R1", "R2"), ("R1", "R3"), ("R2", "R3"), ("R3", "R4"), ("R2", "R4"), ("R3", "R12"),
                                       ("R3", "ROOT1"), ("R2", "T5"), ("R3", "T5"), ("R3", "T1"), ("R3", "T2"), ("R3", "T3") , ("R4", "T5"),
                                       ("R5", "R2"), ("R5", "R3"), ("R5", "ROOT2"), ("R5", "ROOT3"), ("R5", "T5"), ("R5", "T1"),
                                       ("ROOT1", "ROOT2"), ("ROOT1", "R2"), ("ROOT2", "R1"), ("ROOT2", "R3"), ("ROOT1", "ROOT3"), ("ROOT2", "ROOT3"),
                                       ("R1", "ROOT3"), ("R2", "ROOT3"), ("R3", "ROOT3"), ("R12", "ROOT3"), ("ROOT3", "T5"), ("ROOT3", "T1")]}
-TYPE_OPS = {"T1", "T2", "T3", "T4", "T5", "T6", "T7", "T8", "T9", "T10", "T11"}
+TYPE_OPS = {"T1", "T2", "T3", "T4", "T5", "T6", "T7", "T8", "T9", "T10", "T11", "T12", "T13"}
 
 
 def enabled(hist, op):
@@ -244,6 +249,12 @@ def execute(cases_, tier, seed):
                     if nxt != o.get("type_id"):
                         res.violations.append(Violation(c["key"], "I5-self-reference", "%s: the '#' reference inside Root3 resolves to %r" % (h, types.get(nxt, {}).get("name")), c,
                                                         expected="Root3", observed=types.get(nxt, {}).get("name"), features=dict(feats, op=name)))
+            # I5 (hints): an untitled schema added under a name hint yields a type of that name, whatever was added before under other hints
+            if name in HINT_NAMES and last:
+                got = types.get(o["type_id"], {}).get("name")
+                if got != HINT_NAMES[name]:
+                    res.violations.append(Violation(c["key"], "I5-hint-name", "%s: add_type_with_name(.., %s) returned an id naming %r" % (h, HINT_NAMES[name], got), c,
+                                                    expected=HINT_NAMES[name], observed=got, features=dict(feats, op=name)))
             # I2: repeating a type addition
             if name in TYPE_OPS and last:
                 ident = types.get(o["type_id"], {}).get("ident")
